@@ -126,6 +126,15 @@ def Module.firstClass? (m : Module) : Option ClassDef := m.body.findSome? Top.cl
 
 def ClassDef.methods (c : ClassDef) : List Method := c.body.filterMap ClassItem.method?
 
+/-- `s.startswith(".")` -/
+def startsWithDot (s : String) : Bool :=
+  match s.toList with
+  | '.' :: _ => true
+  | _ => false
+
+/-- `str.upper()` on the ASCII strings `str_to_snake_case` produces -/
+def upperAscii (s : String) : String := String.ofList (s.toList.map Char.toUpper)
+
 /-- `"." * level + module` -/
 def dotted (level : Nat) (module : String) : String := String.ofList (List.replicate level '.') ++ module
 
